@@ -115,12 +115,7 @@ def run_family(rep: vlib.Reporter, rng: random.Random, big: bool) -> Tuple[int, 
     from harness import c05, planner_l
     specs = family(rng, big)
     found = False
-    reported = [0]
-
-    def violation(key: str, what: str, replay_obj: Dict[str, Any]) -> None:
-        reported[0] += 1
-        if reported[0] <= 6:
-            rep.finding(key, what, replay_obj)
+    pending: List[Tuple[int, str, str, Dict[str, Any]]] = []      # violations; those with WRONG ROWS are reported first (at most 6 in all)
     dist: Dict[str, Any] = {"requests": len(specs), "status": {}, "by_jt": {}, "by_names": {}, "by_pair": {}, "by_admits": {},
                             "consumer_on_left_framework": 0, "attributed_to_recorded_domains": {}, "rows_equal_to_spec": 0}
     recs = [c05.one({k: v for k, v in s.items() if k != "dims_b"}) for s in specs]
@@ -188,16 +183,18 @@ def run_family(rep: vlib.Reporter, rng: random.Random, big: bool) -> Tuple[int, 
                 f"R1[{s['groups'][1]['cfw']}].{l['ri']}), R0 = {json.dumps(s['groups'][0]['cols'])}, R1 = {json.dumps(s['groups'][1]['cols'])}: "
                 + "; ".join(problems[i][:4]) + f"; consumer planned on {r.get('consumer_cfw')}, JoinSteps {json.dumps(r.get('joins'))}, "
                 f"rows received {json.dumps(r.get('rows'))[:400]}")
-        violation(f"both-frameworks:{json.dumps(s, sort_keys=True)}", what,
-                  {"kind": "both", "spec": s, "status": r["status"], "exc": r.get("exc"), "rows": r.get("rows"), "problems": problems[i]})
+        pending.append((0 if wrong else 1, f"both-frameworks:{json.dumps(s, sort_keys=True)}", what,
+                        {"kind": "both", "spec": s, "status": r["status"], "exc": r.get("exc"), "rows": r.get("rows"), "problems": problems[i]}))
         found = True
+    for _prio, key, what, replay_obj in sorted(pending, key=lambda x: x[0])[:6]:
+        rep.finding(key, what, replay_obj)
     dist["rows_compared"] = len(terms)
     dist["rows_disagreements"] = len(bad)
     dist["rows_disagreements_equal_to_defect_model"] = len(model_ok)
     dist["plans_compared"] = len(pterms)
     dist["plan_disagreements"] = len(pbad)
     dist["coq_eval_s"] = {"rows": info.get("coq_eval_s"), "plans": pinfo.get("coq_eval_s")}
-    dist["violations"] = reported[0]
+    dist["violations"] = len(pending)
     return len(specs), found, dist
 
 
